@@ -47,6 +47,12 @@ REG = {
             "passes, set_epoch announcements, stop) must equal the suffix of the reference run; refusals (NotImplementedError / "
             "assert) are counted; uninterrupted implementation run validated against the model in the same case",
             "DESIGN.md §3 C06", TRUST),
+    "C07": ("exploration", "Hypothesis-generated transform specs: relation between two independently built instances with equal injected seeds",
+            "one facet per shipped stochastic transform class (28), a composite facet (compose / random-apply / patchwise / scheduled, "
+            "depth<=3) and the kappadata.common pipelines; two instances built under different global RNG states and call histories "
+            "must agree on outputs and ctx after set_rng(default_rng(s)), re-injection must replay, global numpy/torch/random states "
+            "must be untouched; failures are attributed to the first member generator the injected rng did not reach",
+            "DESIGN.md §3 C07", TRUST),
     "C16": ("exploration", "Hypothesis-generated label layouts and wrapper arguments vs. coherence/range/purity/reproducibility predicates",
             "10 facets (one per label-rewriting wrapper): bulk accessor vs per-sample accessor, labels within getshape_class or -1, "
             "x/len/root labels untouched (roots returning a new list, their internal list, ndarray, tensor), equal labels under two "
